@@ -128,6 +128,7 @@ pub fn enumerate(which: &str, thorough: bool) -> Vec<Point> {
     };
     let checkers: Vec<Checker> = match which {
         "C13" | "C15" => vec![Checker::None, Checker::ByteEq],
+        "C14" => vec![Checker::None, Checker::ByteEq, Checker::Panicking, Checker::Recording, Checker::ByteEqNotFound],
         _ => vec![Checker::None, Checker::ByteEq, Checker::Panicking, Checker::Recording],
     };
     let pops: Vec<char> = match which {
@@ -398,6 +399,11 @@ fn level_paths(root: &Path, name: &str, kind: Kind) -> Vec<PathBuf> {
     dirspec(name, kind).candidate_dirs(root, &keyspec())
 }
 
+thread_local! {
+    /// read-only levels holding content B are dated one hour in the future (a peer with a fast clock)
+    static FUTURE_B: std::cell::Cell<bool> = const { std::cell::Cell::new(false) };
+}
+
 fn plant_level(root: &Path, name: &str, kind: Kind, hold: Hold, size: usize, old: i128) {
     if hold == Hold::NoDir {
         return;
@@ -413,8 +419,9 @@ fn plant_level(root: &Path, name: &str, kind: Kind, hold: Hold, size: usize, old
     };
     let p = d.join(KEY);
     plant_file(&p, &value(c, size).encode(), 0o444);
-    // unread, in the past
-    set_times_ns(&p, old - 120_000_000_000, old).unwrap();
+    // unread, in the past (or, for B copies of read-only levels when asked, an hour in the future)
+    let m = if c == 'B' && name != "W" && FUTURE_B.with(|f| f.get()) { now_ns() + 3_600_000_000_000 } else { old };
+    set_times_ns(&p, m - 120_000_000_000, m).unwrap();
 }
 
 fn key_files(snap: &Snap, level: &str) -> Vec<(String, Ent)> {
@@ -469,6 +476,8 @@ pub fn run_point(root: &Path, p: &Point) -> PointResult {
     let val = if p.op.is_lookup() { value(pop_c, p.size) } else { value('V', p.size) };
     let op = Op { kind: p.op, key: keyspec(), val, pop: match p.pop { 'N' => Pop::NotFound, 'E' => Pop::Error, _ => Pop::Value }, nosy: p.nosy, link_from: None };
     let world = trace_world(&[root]);
+    // C19: under umask 077 the application hands over a temp file object it made 0755 itself
+    set_temp_mode(if p.umask == 0o077 { 0o755 } else if p.umask == 0 { 0o2770 } else { 0 });
     let old_umask = unsafe { libc::umask(p.umask as libc::mode_t) };
     let mut log_entries: Vec<(Vec<u8>, Vec<u8>)> = Vec::new();
     let (res, ev) = traced(&world, || {
@@ -486,6 +495,7 @@ pub fn run_point(root: &Path, p: &Point) -> PointResult {
         r
     });
     unsafe { libc::umask(old_umask) };
+    set_temp_mode(0);
     let leaked = world.open_fds();
     let after = snapshot(root);
     let (ret, side) = match res {
@@ -497,6 +507,7 @@ pub fn run_point(root: &Path, p: &Point) -> PointResult {
 
     // ---- C13 / C14: the result
     let checker_fail_ok = |r: &Ret| match p.checker {
+        Checker::ByteEqNotFound => matches!(r, Ret::Err(e) if e.kind == "NotFound"),
         Checker::Panicking => matches!(r, Ret::Panic(m) if m.contains("file contents do not match")),
         _ => matches!(r, Ret::Err(_)),
     };
@@ -655,7 +666,9 @@ pub fn run_point(root: &Path, p: &Point) -> PointResult {
                     if a.kind != b.kind || a.hash != b.hash || a.mode != b.mode || a.mtime != b.mtime || a.ino != b.ino || a.size != b.size {
                         add("C15", "c15:changed", format!("{} changed in a read-only cache ({:?} -> {:?}) at {}", path, (b.mode, b.mtime, b.ino), (a.mode, a.mtime, a.ino), desc));
                     }
-                    if a.atime < b.atime {
+                    // (an entry dated in the future, by a peer with a fast clock, has an artificial atime as
+                    // well; marking it as used sets its atime to the present, which is "earlier")
+                    if a.atime < b.atime && b.mtime <= t0 {
                         add("C15", "c15:changed", format!("{}: access time moved backwards in a read-only cache at {}", path, desc));
                     }
                 }
@@ -762,6 +775,7 @@ pub fn point_json(p: &Point) -> serde_json::Value {
 /// Generic driver: runs the enumeration `which` and reports findings of property `prop`.
 pub fn run_matrix(ctx: &Ctx, prop: &'static str, which: &str, nontrivial: impl Fn(&Point, &PointResult) -> bool) -> Report {
     let mut rep = Report { exhaustive: true, ..Default::default() };
+    FUTURE_B.with(|f| f.set(which == "C15"));
     rep.assumptions.insert(drop_privileges());
     let scratch = Scratch::new(&format!("mx{}", prop));
     std::env::set_var("TMPDIR", scratch.p("TMP"));
@@ -796,6 +810,7 @@ pub fn run_matrix(ctx: &Ctx, prop: &'static str, which: &str, nontrivial: impl F
 
 pub fn replay_point(prop: &str, v: &serde_json::Value) -> Result<(), String> {
     let p: Point = serde_json::from_value(v["point"].clone()).map_err(|e| e.to_string())?;
+    FUTURE_B.with(|f| f.set(prop == "C15"));
     drop_privileges();
     let scratch = Scratch::new("mxr");
     std::env::set_var("TMPDIR", scratch.p("TMP"));
